@@ -35,6 +35,8 @@ func Run(ctx *core.Ctx) {
 	ctx.Trusted = append(ctx.Trusted, "Go decoders in harness/c16/decoders.go (cross-checked against the TLA+ decoders on every M3 line and against node's evaluator / JSON.parse)", "node v20 for the JS runs")
 
 	real := NewReal()
+	real.G = NewGuard(ctx, "go")
+	defer func() { ctx.Extra["renders_slow_not_confirmed"] = real.G.SlowNotConfirmed() }()
 	FailsAlone = func(d Dir, c string) bool {
 		out, err := real.RenderOff(d.Text(), data.String(c))
 		if err != nil {
@@ -843,6 +845,10 @@ func Replay(ctx *core.Ctx) {
 		return
 	}
 	rc := v.Replay
+	if rc.Kind == "no-return" {
+		fmt.Println("replay: this finding is a render that does not return; it is not re-run (render the saved template with the saved value under a deadline)")
+		return
+	}
 	var raw []byte
 	fmt.Sscanf(rc.InputHex, "%x", &raw)
 	s := string(raw)
